@@ -3,7 +3,8 @@ import core
 from core import Case, enc_b, enc_s
 from props.cardutil import digits, rb
 
-OBLIGATIONS = ["Psec.Props.C11.intermediate_eq_spec", "Psec.Props.C11.ibm_pin_eq_spec", "Psec.Props.C11.ibm_offset_eq_spec", "Psec.Props.C11.ibm_lengths_and_inverses", "Psec.Props.C11.sub_add_inv", "Psec.Props.C11.add_sub_inv", "Psec.Props.C11.ibm_pad_case"]
+EXTRA_MODULES = ["PsecModel.Props.Pipeline"]     # composition with the PIN block codecs (C04): issuer -> block -> verifier
+OBLIGATIONS = ["Psec.Props.Pipeline.ibm_pin_is_pinOk", "Psec.Props.Pipeline.ibm_pin_via_iso0", "Psec.Props.Pipeline.ibm_pin_via_iso2", "Psec.Props.Pipeline.ibm_pin_into_pvv", "Psec.Props.C11.intermediate_eq_spec", "Psec.Props.C11.ibm_pin_eq_spec", "Psec.Props.C11.ibm_offset_eq_spec", "Psec.Props.C11.ibm_lengths_and_inverses", "Psec.Props.C11.sub_add_inv", "Psec.Props.C11.add_sub_inv", "Psec.Props.C11.ibm_pad_case"]
 TABLE_OBLIGATIONS = ["Psec.Tables.ibm_alphabet_agree", "Psec.Tables.ascii_n_agree"]   # model = tables regenerated from the source (harness/tables.py)
 TRUSTED_BASE = ["Lean 4.33 kernel", "Spec/CardVerif.lean is my reading of the IBM 3624 PIN / offset algorithm", "correspondence harness and compiled driver"]
 RULE = ("PVK sizes 8/16/24 x random and structured decimalisation tables x offset/PIN lengths 4..16 x PAN lengths 0..19 x all windows "
@@ -35,6 +36,21 @@ def one(c, pvk, table, dg, pan, off, ln, pad):
             c.fail("offset(pin(o)) != o")
         if not (b2.ok and b2.value == dg):
             c.fail("pin(offset(p)) != p")
+        if len(dg) <= 12:
+            # Pipeline.ibm_pin_via_iso0 / _iso2 on the implementation: the derived PIN is inside the encoders' domain, survives
+            # a format 0 and a format 2 PIN block, and the offset is recovered from what the other side decodes
+            bpan = (pan + "4000001234567890")[:16]
+            e0 = c.call("pinblock.encode_pinblock_iso_0", r.value, bpan)
+            e2 = c.call("pinblock.encode_pinblock_iso_2", r.value)
+            d0 = c.call("pinblock.decode_pinblock_iso_0", e0.value, bpan) if e0.ok else e0
+            d2 = c.call("pinblock.decode_pinblock_iso_2", e2.value) if e2.ok else e2
+            if not (d0.ok and d0.value == r.value and d2.ok and d2.value == r.value):
+                c.fail("a derived IBM 3624 PIN of 4..12 digits does not survive a format 0 / format 2 PIN block")
+        if len(dg) == 4:
+            # Pipeline.ibm_pin_into_pvv on the implementation
+            v = c.call("pin.generate_visa_pvv", pvk[::-1], str(off % 10), r.value, (pan + "400000123456")[:16])
+            if not (v.ok and len(v.value) == 4 and all(ch in "0123456789" for ch in v.value)):
+                c.fail("a PIN derived from a four-digit offset is not accepted by generate_visa_pvv / PVV is not four digits")
         if pad.isalpha():
             o = c.call("pin.generate_ibm3624_pin", pvk, table, dg, pan, off, ln, pad.swapcase())
             if not (o.ok and o.value == r.value):
